@@ -3,7 +3,8 @@
 import json, os
 V = os.path.dirname(os.path.dirname(os.path.dirname(os.path.abspath(__file__))))
 props = [json.loads(l) for l in open(os.path.join(V, 'properties.jsonl'))]
-cfg = json.load(open(os.path.join(V, 'sim', 'props.json')))
+import glob
+cfg = [json.load(open(f)) for f in sorted(glob.glob(os.path.join(V, 'sim', 'props.d', '*.json')))]
 claimed = {c['id']: c for c in cfg}
 NA = {
  'C03': 'pure function of (table, request, matcher, glob flag): no schedule, clock, fault or interleaving to simulate (DESIGN.md section 7); its concurrent aspect is checked under C06',
